@@ -5,8 +5,8 @@ ID=$1; TARGETS=$2; TEST=$3; WT=/tmp/wt-$ID
 for M in $WT/mutants/m*; do
   cd $WT && git checkout -q -- .
   ninja -C $WT/_b -j8 photon_shared $TARGETS > /dev/null 2>&1
-  cmd=$(grep -E "^//\s+g\+\+" -A8 $M/demo.cpp | sed 's#^//##' | tr -d '\\\n' | sed 's/&&.*//; s/ \/\/ .*//')
-  out=$(echo "$cmd" | grep -o "\-o [^ ]*" | head -1 | cut -d' ' -f2)
+  cmd=$(python3 /verif/tools/demo_cmd.py $M/demo.cpp | head -1)
+  out=$(python3 /verif/tools/demo_cmd.py $M/demo.cpp | tail -1)
   bash -c "$cmd" > /tmp/vs_compile.log 2>&1; timeout 120 $out > /dev/null 2>&1; clean=$?
   git apply $M/patch.diff
   ninja -C $WT/_b -j8 photon_shared $TARGETS > /dev/null 2>&1; comp=$?
